@@ -121,8 +121,10 @@ def _use_of(I: Interp, f: FuncInfo, call: ast.Call):
                 if isinstance(n, ast.Call) and isinstance(n.func, ast.Name) and n.func.id == "zip":
                     if any(isinstance(a, ast.Name) and a.id == t.id for a in n.args):
                         others = [a for a in n.args if not (isinstance(a, ast.Name) and a.id == t.id)]
+                        from ..prov import Canon
+
                         for o in others:
-                            if norm(o) == "self.fields" and f.cls is not None and f.cls.fq == SCHEMA:
+                            if Canon(I, f, "").canon(o) == "self.fields" and f.cls is not None and f.cls.fq == SCHEMA:
                                 return "zip-fields", len(meta_fields(I))
                         return "zip", None
                 if isinstance(n, ast.Assign) and isinstance(n.value, ast.Name) and n.value.id == t.id and isinstance(n.targets[0], (ast.Tuple, ast.List)):
@@ -478,6 +480,12 @@ class XEval:
                 self.apply_validator(env[fn.id][1], args[0])
                 return args[0]
             d = I.prog.resolve_name(f.module, fn.id)
+            if d is not None and d.kind == "const" and len(args) == 1:
+                # a validator instance kept in a module-level constant
+                rec = validator_record(self.ctx, f.module, fn)
+                if rec.get("kind") in ("Range", "OneOf"):
+                    self.apply_validator(rec, args[0])
+                    return args[0]
             if d is not None and d.kind == "func":
                 g: FuncInfo = d.obj
                 env2 = {}
